@@ -84,7 +84,7 @@ def _tick(v):
     return int(round(288 / v))
 
 
-VALS = [4, 2, 8, 16, 1, value.triplet(8), value.quintuplet(4), value.septuplet(4), value.dots(4), 3, 6, 32]
+VALS = [4, 64, 8, value.quintuplet(4), 2, value.triplet(8), 16, 1, value.septuplet(4), value.dots(4), 3, 6, 32, 128, value.dots(64), value.triplet(64)]
 POOL = [("C", "E"), ("B#", "Cb"), ("F#", "A"), ("E", "G")]
 
 
